@@ -1,8 +1,13 @@
-"""Runs in the implementation interpreter: dumps the data tables of the working tree into coq/Gen/*.v."""
-import os, sys
+"""Runs in the implementation interpreter: dumps the data tables of the working tree into coq/Gen/*.v.
+Each harness/tables_*.py module defines dump(write) and is called with write(name, text) (rewrites only on change)."""
+import glob, importlib, os, sys
 out = sys.argv[1]
 os.makedirs(out, exist_ok=True)
 def write(name, text):
     p = os.path.join(out, name)
     if not os.path.exists(p) or open(p).read() != text:
         open(p, "w").write(text)
+here = os.path.dirname(os.path.abspath(__file__))
+sys.path.insert(0, here)
+for f in sorted(glob.glob(os.path.join(here, "tables_*.py"))):
+    importlib.import_module(os.path.basename(f)[:-3]).dump(write)
